@@ -303,7 +303,7 @@ def check_model(col, st, lexp, temporal=False):
               % (_cfgstr(st), np.round(got, 6).tolist(), a["axes"].tolist()), dict(rp, expected=a["axes"], got=got))
     lsv = [L] + [L * r for r in anis]
     col.check(close(m.len_scale_vec, lsv, TOL), "model:len_scale_vec:%s" % cls,
-              "len_scale_vec %s instead of len_scale x (1, anis) = %s" % (list(m.len_scale_vec), lsv), rp)
+              "len_scale_vec %s instead of len_scale x (1, anis) = %s" % (np.asarray(m.len_scale_vec).tolist(), lsv), rp)
     # along main axis i at distance len_scale * anis[i-1] the model is where the isotropic model is at len_scale
     ref = float(m.covariance(L))
     for i in range(d):
@@ -312,6 +312,18 @@ def check_model(col, st, lexp, temporal=False):
         col.check(abs(got - ref) <= TOL * m.var, "model:cov_spatial:%s:main-axis-scale" % cls,
                   "cov_spatial(len_scale_vec[%d] * main axis %d) = %r but covariance(len_scale) = %r for %s"
                   % (i, i + 1, got, ref, _cfgstr(st)), dict(rp, axis=i))
+    # a vector of length L along main axis i has isotropic radius L / anis[i-1] (spec: MainAxisScaleOK):
+    # the model's *_axis functions and the spatial functions along that axis
+    for i in range(d):
+        r_i = 2.0 ** (lexp - (st["es"][i - 1] if i else 0))      # float image of Pow2(l) / Ratio(es, i)
+        v = (L * a["axes"][i]).reshape(d, 1)
+        for fax, fsp, iso in (("cov_axis", "cov_spatial", m.covariance), ("vario_axis", "vario_spatial", m.variogram),
+                              ("cor_axis", "cor_spatial", m.correlation)):
+            exp = float(iso(r_i))
+            g1, g2 = float(getattr(m, fax)(L, axis=i)), float(getattr(m, fsp)(v)[0])
+            col.check(abs(g1 - exp) <= TOL * m.var and abs(g2 - exp) <= TOL * m.var, "model:%s:%s:axis-radius" % (fax, cls),
+                      "%s(L, axis=%d) = %r, %s(L * main axis %d) = %r, isotropic function at L / anis = %r for %s"
+                      % (fax, i, g1, fsp, i + 1, g2, exp, _cfgstr(st)), dict(rp, axis=i, function=fax))
     # spatial covariance / variogram / correlation at the test positions = isotropic function of the spec radius
     rad = np.sqrt(a["rad2"])
     X = P[:, d:]
@@ -319,31 +331,49 @@ def check_model(col, st, lexp, temporal=False):
         got, exp = getattr(m, fname)(X), iso(rad)
         col.check(close(got, exp, TOL * max(1.0, m.var)), "model:%s:%s:radius" % (fname, cls),
                   "%s at the test positions differs from the isotropic function at the spec radius for %s: %s vs %s"
-                  % (fname, _cfgstr(st), list(got), list(exp)), dict(rp, function=fname, radius2=a["rad2"]))
+                  % (fname, _cfgstr(st), np.asarray(got).tolist(), np.asarray(exp).tolist()), dict(rp, function=fname, radius2=a["rad2"]))
 
 
 COND_VALS = [1.0, -2.0, 3.0, 0.5, 4.0]
 
 
-def _pipeline_compare(col, keybase, rp, what, m_an, m_iso, pos, ipos, seed, d, vector=True, structured=None):
+_REF = {}
+
+
+def _ref_srf(refkey, m_iso, seed, generator):
+    """Reference (isotropic) SRF objects are reused inside a worker process: building the
+    generator (spectral sampling) dominates the cost."""
+    gs = _gs()
+    if refkey is None:
+        return gs.SRF(m_iso, seed=seed, mode_no=8, generator=generator)
+    key = (refkey, seed, generator)
+    if key not in _REF:
+        if len(_REF) > 400:
+            _REF.clear()
+        _REF[key] = gs.SRF(m_iso, seed=seed, mode_no=8, generator=generator)
+    return _REF[key]
+
+
+def _pipeline_compare(col, keybase, rp, what, m_an, m_iso, pos, ipos, seed, d, idx=0, refkey=None, structured=None):
     """Every pipeline with model m_an at pos against the same pipeline with m_iso at ipos."""
     gs = _gs()
     sd = math.sqrt(m_an.var)
+    full = refkey is None
     # --- SRF (RandMeth)
     f1 = gs.SRF(m_an, seed=seed, mode_no=8)(pos)
-    f2 = gs.SRF(m_iso, seed=seed, mode_no=8)(ipos)
+    f2 = _ref_srf(refkey, m_iso, seed, "RandMeth")(ipos)
     col.check(close(f1, f2, TOL * max(1.0, sd)), keybase + ":SRF", "%s: SRF differs from the isotropic model at the transformed "
               "positions by %s" % (what, maxdiff(f1, f2)), dict(rp, pipeline="SRF", got=f1, expected=f2))
     if structured is not None:
         axes, gpos_iso = structured
         f1 = gs.SRF(m_an, seed=seed, mode_no=8).structured(axes)
-        f2 = gs.SRF(m_iso, seed=seed, mode_no=8)(gpos_iso)
+        f2 = _ref_srf(refkey, m_iso, seed, "RandMeth")(gpos_iso)
         col.check(close(np.ravel(f1), f2, TOL * max(1.0, sd)), keybase + ":SRF-structured",
                   "%s: structured SRF differs from the isotropic model at the transformed grid by %s"
                   % (what, maxdiff(np.ravel(f1), f2)), dict(rp, pipeline="SRF-structured"))
-    if vector and d in (2, 3):
+    if d in (2, 3) and (full or idx % 2 == 0):
         f1 = gs.SRF(m_an, seed=seed, mode_no=8, generator="VectorField")(pos)
-        f2 = gs.SRF(m_iso, seed=seed, mode_no=8, generator="VectorField")(ipos)
+        f2 = _ref_srf(refkey, m_iso, seed, "VectorField")(ipos)
         col.check(close(f1, f2, 1e-11 * max(1.0, sd)), keybase + ":VectorField", "%s: vector field differs from the isotropic model "
                   "at the transformed positions by %s" % (what, maxdiff(f1, f2)), dict(rp, pipeline="VectorField"))
     # --- kriging: the first d+1 points carry data, all points are targets
@@ -357,9 +387,11 @@ def _pipeline_compare(col, keybase, rp, what, m_an, m_iso, pos, ipos, seed, d, v
         col.check(close(a1, a2, KTOL) and close(v1, v2, KTOL), keybase + ":Krige" + kname,
                   "%s: %s kriging differs from the isotropic model at the transformed positions (field %s, variance %s)"
                   % (what, kname, maxdiff(a1, a2), maxdiff(v1, v2)), dict(rp, pipeline="Krige." + kname, got=a1, expected=a2))
-        if kname == "Ordinary":
-            c1 = gs.CondSRF(k1, seed=seed, mode_no=8)(pos)
-            c2 = gs.CondSRF(k2, seed=seed, mode_no=8)(ipos)
+        if kname == "Ordinary" and (full or idx % 2 == 1):
+            # conditioned simulation at the points that carry no data (at a data point the kriging
+            # variance is 0 up to rounding and CondSRF takes its square root: not comparable at 1e-9)
+            c1 = gs.CondSRF(k1, seed=seed, mode_no=8)(pos[:, nc:])
+            c2 = gs.CondSRF(k2, seed=seed, mode_no=8)(ipos[:, nc:])
             col.check(close(c1, c2, KTOL), keybase + ":CondSRF", "%s: conditioned field differs from the isotropic model at the "
                       "transformed positions by %s" % (what, maxdiff(c1, c2)), dict(rp, pipeline="CondSRF", got=c1, expected=c2))
 
@@ -385,8 +417,9 @@ def check_pipeline(col, st, idx, temporal=False):
         m_iso = _mk_model(name, kw, dim=d, **common)
     rp = {"kind": "pipeline", "d": d, "qs": st["qs"], "es": st["es"], "model": name, "len_scale": L, "temporal": temporal}
     keybase = "pipeline:%s:d%d" % ("temporal" if temporal else "spatial", d)
-    seed = 1000 + idx
-    _pipeline_compare(col, keybase, rp, "%s %s" % (name, _cfgstr(st)), m_an, m_iso, a["P"], a["isoX"], seed, d)
+    seed = 1000 + idx % 2
+    _pipeline_compare(col, keybase, rp, "%s %s" % (name, _cfgstr(st)), m_an, m_iso, a["P"], a["isoX"], seed, d, idx=idx,
+                      refkey=(name, d, lexp, temporal))
     if temporal:
         # requested space-time angles are ignored: same results as with those angles zero
         gs = _gs()
@@ -438,26 +471,66 @@ def check_general(col, idx, seed, temporal=False):
     if not temporal:
         col.check(close(g.matrix_derotate(d, ang), g.matrix_rotate(d, ang).T, 1e-12), keybase + ":derotate-transpose",
                   "%s: matrix_derotate is not the transpose of matrix_rotate" % what, dict(rp, clause="transpose"))
+    # the model's own spatial covariance is the isotropic covariance at the radius of the isometrized position,
+    # and it is the covariance kriging uses (one data point: weight = C(x - x0) / C(0))
+    rad = np.array([math.sqrt(math.fsum(float(ipos[k][i]) ** 2 for k in range(d))) for i in range(n)])
+    for fname, iso in (("cov_spatial", m_an.covariance), ("vario_spatial", m_an.variogram), ("cor_spatial", m_an.correlation)):
+        got, exp = getattr(m_an, fname)(pos), iso(rad)
+        col.check(close(got, exp, TOL * max(1.0, m_an.var)), keybase + ":" + fname,
+                  "%s: %s(x) differs from the isotropic function at |isometrize(x)| by %s" % (what, fname, maxdiff(got, exp)),
+                  dict(rp, clause=fname))
+    v0 = 1.5
+    kf, kv = gs.krige.Simple(m_an, cond_pos=pos[:, :1], cond_val=[v0], mean=0.0)(pos)
+    cs = m_an.cov_spatial(pos - pos[:, :1])
+    c0 = float(m_an.cov_spatial(np.zeros((d, 1)))[0])
+    col.check(close(kf, v0 * cs / c0, KTOL) and close(kv, np.maximum(c0 - cs * cs / c0, 0.0), KTOL), keybase + ":krige-uses-cov_spatial",
+              "%s: simple kriging from one data point differs from the weight cov_spatial(x - x0) / cov_spatial(0) by %s"
+              % (what, maxdiff(kf, v0 * cs / c0)), dict(rp, clause="krige-cov_spatial"))
     structured = None
     if d <= 3:
         axes = [np.round(rng.uniform(-2, 2, 2 + k), 2) for k in range(d)]
         grid = np.array(np.meshgrid(*axes, indexing="ij")).reshape(d, -1)  # enumeration of the grid points
         structured = (axes if d > 1 else axes[0], m_an.isometrize(grid))
-    _pipeline_compare(col, keybase, rp, what, m_an, m_iso, pos, ipos, 77 + idx, d, structured=structured)
+    _pipeline_compare(col, keybase, rp, what, m_an, m_iso, pos, ipos, 77 + idx, d, idx=idx, structured=structured)
+
+
+def _cfg_hash(st):
+    """Stable scrambled index of a configuration (selection of the sampled sub-checks)."""
+    h = st["d"]
+    for q in st["qs"]:
+        h = h * 4 + q
+    for e in st["es"]:
+        h = h * 3 + (e + 1)
+    return (h * 2654435761) & 0xFFFFFFFF
 
 
 def _work_lin(job):
-    """Worker: a chunk of TLC states of Geometry.tla."""
-    kind, states, opts = job
+    """Worker: part of a TLC state dump of Geometry.tla ("lin" / "tmp")."""
+    kind, path, part, nparts, opts = job
     col = _Collect()
     temporal = kind == "tmp"
-    for i, st in states:
+    states = read_lin_dump(path)
+    col.first = states[:2] if part == 0 else []
+    col.n_states = col.n_model = col.n_pipe = 0
+    for st in states[part::nparts]:
+        if not all(st["chk"].values()):
+            col.notes.append("chk FALSE in %r" % (st,))
+        h = _cfg_hash(st)
+        low = st["d"] < 4
+        col.n_states += 1
         if not temporal:
             check_functions(col, st)
-        if opts["model"](i):
-            check_model(col, st, LENEXP[i % 3], temporal=temporal)
-        if opts["pipe"](i):
-            check_pipeline(col, st, i, temporal=temporal)
+        if (low and opts["model_low"]) or h % opts["model"] == 0:
+            check_model(col, st, LENEXP[h % 3], temporal=temporal)
+            col.n_model += 1
+            if temporal:
+                m = _mk_model("Gaussian", {}, temporal=True, spatial_dim=st["d"] - 1, angles=angles_of(st["qs"]) or 0.0)
+                col.check(close(m.angles, angles_of(st["eqs"]), 0.0), "model:angles:temporal:d%d" % st["d"],
+                          "spatio-temporal model keeps angles %s for requested quarter turns %s, spec %s"
+                          % (list(m.angles), st["qs"], st["eqs"]), {"kind": "tmp-angles", "d": st["d"], "qs": st["qs"]})
+        if (low and opts["pipe_low"]) or (h // 7) % opts["pipe"] == 0:
+            check_pipeline(col, st, h // 64, temporal=temporal)
+            col.n_pipe += 1
         col.nontrivial.add((kind, st["d"], tuple(st["qs"]), tuple(st["es"])))
     return col
 
@@ -471,21 +544,29 @@ def _work_general(job):
     return col
 
 
-class _Sel:
-    """Picklable index selector."""
-
-    def __init__(self, every=1, always_below=0):
-        self.every, self.below = every, always_below
-
-    def __call__(self, i):
-        return i < self.below or (self.every > 0 and i % self.every == 0)
-
-
 def _merge(rep, col, traces=True):
     rep.evaluations += col.evals
     rep.nontrivial |= col.nontrivial
     for key, what, rp in col.violations:
         rep.violation(key, what, rp)
+
+
+def _collect_lin(rep, cols):
+    tot = {"states": 0, "model": 0, "pipe": 0}
+    for col in cols:
+        _merge(rep, col)
+        tot["states"] += col.n_states
+        tot["model"] += col.n_model
+        tot["pipe"] += col.n_pipe
+        if col.notes and not rep.violations:
+            raise tlc.MachineryError("a chk field is FALSE but TLC reported no invariant violation: " + col.notes[0])
+        for st in col.first:
+            if len(rep.samples) < 4:
+                a = _state_arrays(st)
+                rep.sample({"d": st["d"], "angles_quarter_turns": st["qs"], "ratio_exponents": st["es"],
+                            "spec_rotate": a["rot"].tolist(), "spec_iso": a["isoX"][:, :st["d"]].tolist(),
+                            "spec_rad2_of_test_positions": a["rad2"].tolist()})
+    return tot
 
 
 def _run_pool(fn, jobs, procs):
@@ -547,39 +628,22 @@ def run_c12(rep, tier, seed):
         print("TLC: %d jobs in %.1fs" % (len(jobs), time.time() - t0))
         _design_violations(rep, results, lambda k: "Geometry.%s[%s]" % k)
         # ---- elementary rotations and helper functions
-        t0 = time.time()
         col = _Collect()
         check_givens(col, read_dump(sc.path("giv.dump")))
         _merge(rep, col)
-        states = []
+        # every configuration: functions of tools/geometric.py; CovModel methods and pipelines: all of dims 1-3,
+        # a hash-selected share in 4-D
+        opts = {"model_low": True, "pipe_low": True, "model": 1 if thorough else 4, "pipe": 8 if thorough else 24}
+        wjobs = []
         for (mode, tag), r in sorted(results.items()):
             if mode == "lin":
-                states += read_lin_dump(sc.path(tag + ".dump"))
-        print("parsed %d configurations in %.1fs" % (len(states), time.time() - t0))
-    bad = [s for s in states if not all(s["chk"].values())]
-    if bad and not rep.violations:
-        raise tlc.MachineryError("a chk field is FALSE but TLC reported no invariant violation: %r" % (bad[0],))
-    low = [s for s in states if s["d"] < 4]
-    d4 = [s for s in states if s["d"] == 4]
-    rng.shuffle(d4)
-    # every configuration: functions of tools/geometric.py; CovModel methods and pipelines: all of dims 1-3,
-    # a seeded sample in 4-D (quick) / a larger share (thorough)
-    n_low = len(low)
-    order = list(enumerate(low + d4))
-    model_sel = _Sel(every=1 if thorough else 4, always_below=n_low)
-    pipe_sel = _Sel(every=8 if thorough else 24, always_below=n_low)
-    chunks = [("lin", order[i::procs * 3], {"model": model_sel, "pipe": pipe_sel}) for i in range(procs * 3)]
-    t0 = time.time()
-    for col in _run_pool(_work_lin, [c for c in chunks if c[1]], procs):
-        _merge(rep, col)
-    rep.traces += len(order)
-    n_model = sum(1 for i, _ in order if model_sel(i))
-    n_pipe = sum(1 for i, _ in order if pipe_sel(i))
-    print("replayed %d configurations (%d on CovModel, %d through the pipelines) in %.1fs" % (len(order), n_model, n_pipe, time.time() - t0))
-    for i, st in order[:3] + order[n_low:n_low + 2]:
-        a = _state_arrays(st)
-        rep.sample({"d": st["d"], "angles_quarter_turns": st["qs"], "ratio_exponents": st["es"],
-                    "spec_rotate": a["rot"].tolist(), "spec_iso": a["isoX"][:, :st["d"]].tolist(), "spec_rad2": a["rad2"].tolist()})
+                nparts = max(1, r.distinct // (40 if tag.startswith("d3") else 256))
+                wjobs += [("lin", sc.path(tag + ".dump"), part, nparts, opts) for part in range(nparts)]
+        t0 = time.time()
+        tot = _collect_lin(rep, _run_pool(_work_lin, wjobs, procs))
+    print("replayed %d configurations (%d on CovModel, %d through the pipelines) in %.1fs"
+          % (tot["states"], tot["model"], tot["pipe"], time.time() - t0))
+    rep.traces += tot["states"]
     # ---- seeded general angles / ratios
     ng = 600 if thorough else 200
     t0 = time.time()
@@ -588,16 +652,16 @@ def run_c12(rep, tier, seed):
         _merge(rep, col)
     rep.traces += ng
     print("replayed %d seeded general angle/ratio vectors in %.1fs" % (ng, time.time() - t0))
-    rep.extra.update({"configurations_from_tlc": len(order), "configurations_on_covmodel": n_model,
-                      "configurations_through_pipelines": n_pipe, "general_vectors": ng,
+    rep.extra.update({"configurations_from_tlc": tot["states"], "configurations_on_covmodel": tot["model"],
+                      "configurations_through_pipelines": tot["pipe"], "general_vectors": ng,
                       "dim4_ratio_vectors": len(es4)})
     return rep.finish(
         level="model_checking",
         rule="TLC configurations = (dim, quarter-turn angle vector, ratio-exponent vector): all of dims 1-3, in 4-D all 4096 angle "
              "vectors x %d ratio vectors; each is one trace replayed on tools/geometric.py (all), on a CovModel and through "
-             "SRF/VectorField/Krige/CondSRF (all of dims 1-3, a seeded sample in 4-D); + seeded general angle/ratio vectors. "
+             "SRF/VectorField/Krige/CondSRF (all of dims 1-3, a hash-selected share in 4-D); + seeded general angle/ratio vectors. "
              "distinct non-trivial = distinct (dim, angles, ratios) tuples / general vector indices" % len(es4),
-        exhaustive=thorough)
+        exhaustive=False)
 
 
 def check_givens(col, states):
@@ -640,6 +704,539 @@ def check_givens(col, states):
 
 
 # ---------------------------------------------------------------------------
+# C13: sphere
+
+
+def _scales():
+    gs = _gs()
+    return [("radian", 1.0), ("degree", gs.DEGREE_SCALE), ("km", gs.KM_SCALE), ("arbitrary", 2.5)]
+
+
+def _unit(lat, lon):
+    """Numeric unit vector; used only to generate inputs and to self-check the oracle (MachineryError)."""
+    la, lo = math.radians(lat), math.radians(lon)
+    return np.array([math.cos(la) * math.cos(lo), math.cos(la) * math.sin(lo), math.sin(la)])
+
+
+def gen_gc_sets(rng, n):
+    """Point sets on which every pairwise great-circle distance is an exact integer number of degrees."""
+    sets = []
+    fams = ["equator", "meridian", "equator+poles", "meridian+poles", "octahedral"]
+    for k in range(n):
+        fam = fams[k % len(fams)]
+        pts = []
+        if fam in ("equator", "equator+poles"):
+            base = rng.randrange(-180, 181)
+            pts = [(0, base), (0, base + 360), (0, base + 180), (0, 179), (0, -179), (0, 180), (0, -180)]
+            pts += [(0, rng.randrange(-540, 721)) for _ in range(3)]
+            if fam == "equator+poles":
+                pts = pts[2:] + [(90, rng.randrange(-400, 400)), (-90, rng.randrange(-400, 400))]
+        elif fam in ("meridian", "meridian+poles"):
+            lon0 = rng.randrange(-180, 361)
+            for _ in range(6):
+                side = rng.choice([0, 180])
+                pts.append((rng.randrange(-90, 91), lon0 + side + 360 * rng.choice([-1, 0, 0, 1])))
+            pts += [(90, rng.randrange(-400, 400)), (-90, lon0), (0, lon0 + 180)]
+            if fam == "meridian+poles":
+                pts = pts[2:] + [(0, lon0 + 90 + 360 * rng.choice([-1, 0, 1])), (0, lon0 - 90)]
+        else:
+            pts = [(0, 90 * rng.randrange(-4, 6)) for _ in range(5)] + [(90, 90 * rng.randrange(-4, 6)), (-90, rng.randrange(-400, 400)),
+                                                                        (0, 0), (0, 180), (0, -90)]
+        rng.shuffle(pts)
+        vals = rng.sample(range(-9, 10), len(pts))
+        sets.append((fam, pts, vals))
+    return sets
+
+
+def gen_oct_sets(rng, n, ncond=4, ntarget=5):
+    """Points on the three coordinate great circles (integer degrees); the first ncond carry data."""
+    sets = []
+    for _k in range(n):
+        pts = []
+        tries = 0
+        while len(pts) < ncond + ntarget:
+            tries += 1
+            c = rng.choice(["eq", "m0", "m90", "vertex"])
+            rep = 360 * rng.choice([-1, 0, 0, 1])
+            if c == "eq":
+                p = (0, rng.randrange(-180, 181) + rep)
+            elif c == "m0":
+                p = (rng.randrange(-90, 91), rng.choice([0, 180]) + rep)
+            elif c == "m90":
+                p = (rng.randrange(-90, 91), rng.choice([90, -90]) + rep)
+            else:
+                p = rng.choice([(0, 0), (0, 90), (0, 180), (0, -90), (90, rng.randrange(-200, 200)), (-90, rng.randrange(-200, 200))])
+            u = _unit(*p)
+            # data points well separated (conditioning of the kriging matrix), all points distinct
+            mind = 0.35 if len(pts) < ncond else 0.02
+            if all(np.linalg.norm(u - _unit(*q)) > mind for q in pts):
+                pts.append(p)
+        sets.append(pts)
+    return sets
+
+
+def gen_st_sets(rng, n, size=6):
+    sets = []
+    for _k in range(n):
+        pts = []
+        while len(pts) < size:
+            p = (rng.choice([-90, 0, 0, 0, 90]), 90 * rng.randrange(-4, 7), rng.randrange(-3, 4))
+            key = (tuple(np.round(_unit(p[0], p[1]), 6)), p[2])
+            if all(key != (tuple(np.round(_unit(q[0], q[1]), 6)), q[2]) for q in pts):
+                pts.append(p)
+        sets.append(dict(r=rng.choice([-1, 0, 1]), te=rng.choice([-1, 0, 1]), pts=pts))
+    return sets
+
+
+def _lon_equiv(a, b, tol=1e-9):
+    x = (a - b) % 360.0
+    return min(x, 360.0 - x) <= tol
+
+
+def check_ll_state(col, s):
+    """latlon2pos / pos2latlon and the lat-lon(-time) model against one lattice configuration."""
+    from gstools.tools import geometric as g
+
+    c, o = s["cfg"], s["out"]
+    R, ts, tp = 2.0 ** c["r"], 2.0 ** c["te"], bool(c["temporal"])
+    ll = [[float(c["lat"])], [float(c["lon"])]] + ([[float(c["t"])]] if tp else [])
+    exp = np.array(o["pos4"], dtype=float).reshape(-1, 1) / 4.0
+    back = [float(x) for x in o["back"]]
+    rp = {"kind": "ll", "cfg": c}
+    cls = "temporal" if tp else "spatial"
+    got = g.latlon2pos(ll, radius=R, temporal=tp, time_scale=ts)
+    col.check(close(got, exp, TOL * max(1.0, R)), "latlon2pos:%s:lattice" % cls,
+              "latlon2pos(%s, radius=%s, time_scale=%s) = %s, spec %s" % (ll, R, ts, got.ravel().tolist(), exp.ravel().tolist()), rp)
+
+    def same(res, what, key):
+        res = np.asarray(res, dtype=float).ravel()
+        ok = len(res) == len(back) and abs(res[0] - back[0]) <= KTOL and (abs(back[0]) == 90 or _lon_equiv(res[1], back[1]))
+        ok = ok and (not tp or abs(res[2] - back[2]) <= KTOL)
+        col.check(ok, key, "%s = %s is not the point %s (lat, lon modulo 360%s)" % (what, res.tolist(), back, ", time" if tp else ""), rp)
+
+    same(g.pos2latlon(exp, radius=R, temporal=tp, time_scale=ts), "pos2latlon(%s, radius=%s, time_scale=%s)" % (exp.ravel().tolist(), R, ts),
+         "pos2latlon:%s:lattice" % cls)
+    same(g.pos2latlon(got, radius=R, temporal=tp, time_scale=ts), "pos2latlon(latlon2pos(%s))" % ll, "roundtrip:%s:lattice" % cls)
+    # model level: spatial ratios and all angles requested, only the time ratio may survive
+    m = _mk_model("Gaussian", {}, latlon=True, temporal=tp, geo_scale=R, len_scale=R,
+                  anis=[0.5, 2.0, ts] if tp else [0.5, 2.0], angles=[0.4, 1.0, 0.3, 0.7, 0.2, 0.9][: 6 if tp else 3])
+    col.check(m.dim == 3 + int(tp) and m.field_dim == 2 + int(tp), "model-latlon:dim:%s" % cls,
+              "lat-lon model has dim %s, field_dim %s" % (m.dim, m.field_dim), rp)
+    got = m.isometrize(ll)
+    col.check(close(got, exp, TOL * max(1.0, R)), "model-latlon:isometrize:%s" % cls,
+              "isometrize(%s) of a lat-lon model (geo_scale=%s, time ratio %s) = %s, spec %s"
+              % (ll, R, ts, np.ravel(got).tolist(), exp.ravel().tolist()), rp)
+    same(m.anisometrize(exp), "anisometrize(%s)" % exp.ravel().tolist(), "model-latlon:anisometrize:%s" % cls)
+
+
+def check_ll_general(col, idx, seed):
+    """Seeded general points: conversion to 3-D and back is the identity; positions lie on the sphere."""
+    from gstools.tools import geometric as g
+
+    rng = np.random.default_rng([seed, idx, 13])
+    n = 12
+    tp = bool(idx % 2)
+    lat = rng.uniform(-89, 89, n)
+    lat[:2] = [90.0, -90.0]
+    lat[2] = 0.0
+    lon = rng.uniform(-540, 720, n)
+    lon[3:7] = [180.0, -180.0, 179.999, -179.999]
+    R = float(rng.choice([1.0, 57.29577951308232, 6371.0, rng.uniform(0.1, 10)]))
+    ts = float(rng.uniform(0.2, 5))
+    ll = [lat, lon] + ([rng.uniform(-5, 5, n)] if tp else [])
+    rp = {"kind": "ll-general", "idx": idx, "seed": seed, "latlon": ll, "radius": R, "time_scale": ts, "temporal": tp}
+    cls = "temporal" if tp else "spatial"
+    pos = g.latlon2pos(ll, radius=R, temporal=tp, time_scale=ts)
+    back = g.pos2latlon(pos, radius=R, temporal=tp, time_scale=ts)
+    ok = close(back[0], lat, KTOL) and all(abs(lat[i]) == 90 or _lon_equiv(back[1][i], lon[i]) for i in range(n))
+    ok = ok and (not tp or close(back[2], ll[2], KTOL))
+    col.check(ok, "roundtrip:%s:general" % cls, "pos2latlon(latlon2pos(x)) is not x (modulo 360 in lon): %s -> %s"
+              % (np.array(ll).tolist(), np.asarray(back).tolist()), rp)
+    rad = np.array([math.sqrt(math.fsum(float(pos[k][i]) ** 2 for k in range(3))) for i in range(n)])
+    col.check(close(rad, np.full(n, R), 1e-12 * R), "latlon2pos:%s:on-sphere" % cls,
+              "latlon2pos does not map onto the sphere of radius %s: radii %s" % (R, rad.tolist()), rp)
+    if tp:
+        col.check(close(pos[3], ll[2] / ts, TOL), "latlon2pos:temporal:time-axis", "time coordinate is not t / time_scale", rp)
+        pos0 = g.latlon2pos(ll[:2], radius=R)
+        col.check(close(pos[:3], pos0, 0.0), "latlon2pos:temporal:space-independent-of-time",
+                  "spatial coordinates of the temporal conversion differ from the purely spatial conversion", rp)
+    m = _mk_model("Exponential", {}, latlon=True, temporal=tp, geo_scale=R, len_scale=R, anis=[1.0, 1.0, ts] if tp else 1.0)
+    b2 = m.anisometrize(m.isometrize(ll))
+    ok = close(b2[0], lat, KTOL) and all(abs(lat[i]) == 90 or _lon_equiv(b2[1][i], lon[i]) for i in range(n))
+    ok = ok and (not tp or close(b2[2], ll[2], KTOL))
+    col.check(ok, "model-latlon:roundtrip:%s" % cls, "anisometrize(isometrize(x)) of a lat-lon model is not x", rp)
+    col.check(close(m.isometrize(ll), pos, TOL * R), "model-latlon:isometrize:%s:general" % cls,
+              "isometrize of a lat-lon model differs from latlon2pos(radius=geo_scale, time_scale=anis[-1])", rp)
+
+
+LL_MODELS = [("Gaussian", {}), ("Exponential", {}), ("Matern", {"nu": 1.5}), ("Stable", {"alpha": 1.2})]
+
+
+def check_gc_set(col, k, fam, pts, vals, s, tier):
+    """vario_estimate(latlon=True), Yadrenko covariance, chordal conversion and 2-point kriging against
+    the spec's great-circle distances of one point set."""
+    from gstools.tools import geometric as g
+
+    gs = _gs()
+    o = s["out"]
+    n = len(pts)
+    dist = np.array(o["dist"], dtype=float)
+    chord2 = np.array(o["chord2"], dtype=float)
+    hist = {int(h[0]): (int(h[1]), int(h[2])) for h in o["hist"]}
+    lat = np.array([p[0] for p in pts], dtype=float)
+    lon = np.array([p[1] for p in pts], dtype=float)
+    fld = np.array(vals, dtype=float)
+    rp = {"kind": "gc", "family": fam, "points": pts, "values": vals}
+    edges_deg = np.array([0.0] + [x + 0.5 for x in range(181)])
+    exp_cnt = np.zeros(181)
+    exp_gam = np.zeros(181)
+    for dd, (cnt, ssq) in hist.items():
+        exp_cnt[dd] = cnt
+        exp_gam[dd] = ssq / (2.0 * cnt)
+    for sname, sc in _scales():
+        edges = edges_deg * (math.pi / 180.0) * sc  # fresh array: the estimator may rescale it in place
+        _bc, gam, cnt = gs.vario_estimate((lat, lon), fld, edges, latlon=True, geo_scale=sc, return_counts=True)
+        col.check(close(cnt, exp_cnt, 0.0), "vario_estimate:latlon:%s:counts" % fam,
+                  "pair counts per integer-degree bin (geo_scale %s) differ from the spec's great-circle distances: got %s expected %s"
+                  % (sname, {i: int(c) for i, c in enumerate(cnt) if c}, {i: int(c) for i, c in enumerate(exp_cnt) if c}),
+                  dict(rp, geo_scale=sc, clause="counts"))
+        col.check(close(gam, exp_gam, KTOL), "vario_estimate:latlon:%s:gamma" % fam,
+                  "variogram values per integer-degree bin (geo_scale %s) differ from the spec (max %s)" % (sname, maxdiff(gam, exp_gam)),
+                  dict(rp, geo_scale=sc, clause="gamma"))
+    # Yadrenko functions and chordal distances
+    name, kw = LL_MODELS[k % len(LL_MODELS)]
+    sname, sc = _scales()[k % 4]
+    m = _mk_model(name, kw, latlon=True, geo_scale=sc, len_scale=sc * (0.5 + 0.25 * (k % 3)), var=2.0)
+    zeta = dist * (math.pi / 180.0) * sc
+    chord_rel = np.vectorize(lambda z: 2.0 * sc * math.sin(z / (2.0 * sc)))(zeta)
+    for fy, fi in (("cov_yadrenko", m.covariance), ("vario_yadrenko", m.variogram), ("cor_yadrenko", m.correlation)):
+        got = getattr(m, fy)(zeta)
+        col.check(close(got, fi(chord_rel), TOL * 2), "yadrenko:%s:relation" % fy,
+                  "%s(zeta) differs from the isotropic function at 2R sin(zeta/2R) (geo_scale %s) by %s"
+                  % (fy, sname, maxdiff(got, fi(chord_rel))), dict(rp, geo_scale=sc, function=fy))
+    sel = chord2 >= 0
+    if sel.any():
+        chord = sc * np.sqrt(chord2[sel])
+        col.check(close(m.cov_yadrenko(zeta[sel]), m.covariance(chord), TOL * 2), "yadrenko:cov_yadrenko:exact-chord",
+                  "cov_yadrenko at %s degrees differs from covariance at the exact chord" % sorted(set(dist[sel].tolist())),
+                  dict(rp, geo_scale=sc))
+        got = g.great_circle_to_chordal(zeta[sel], sc)
+        col.check(close(got, chord, TOL * sc), "great_circle_to_chordal:exact", "great_circle_to_chordal(%s deg, R=%s) = %s, exact %s"
+                  % (dist[sel].tolist(), sc, np.asarray(got).tolist(), chord.tolist()), dict(rp, geo_scale=sc))
+        got = g.chordal_to_great_circle(chord, sc)
+        col.check(close(got, zeta[sel], KTOL * sc), "chordal_to_great_circle:exact", "chordal_to_great_circle of the exact chords of %s deg "
+                  "(R=%s) = %s, expected %s" % (dist[sel].tolist(), sc, np.asarray(got).tolist(), zeta[sel].tolist()), dict(rp, geo_scale=sc))
+    # simple kriging with two data points: weights assembled by hand from cov_yadrenko of the spec distances
+    pairs = [(i, j) for i in range(n) for j in range(i + 1, n) if 0 < dist[i, j]]
+    rr = random.Random(k)
+    for (i, j) in rr.sample(pairs, min(len(pairs), 6 if tier == "thorough" else 3)):
+        v1, v2 = 1.5, -0.5
+        kr = gs.krige.Simple(m, cond_pos=([lat[i], lat[j]], [lon[i], lon[j]]), cond_val=[v1, v2], mean=0.0)
+        f, var = kr((lat, lon))
+        cy = lambda a, b: float(m.cov_yadrenko(zeta[a, b]))  # noqa: E731
+        c0, c12 = float(m.cov_yadrenko(0.0)), cy(i, j)
+        det = c0 * c0 - c12 * c12
+        ef, ev = [], []
+        for t in range(n):
+            c1t, c2t = cy(i, t), cy(j, t)
+            w1, w2 = (c0 * c1t - c12 * c2t) / det, (c0 * c2t - c12 * c1t) / det
+            ef.append(w1 * v1 + w2 * v2)
+            ev.append(max(c0 - (w1 * c1t + w2 * c2t), 0.0))
+        col.check(close(f, ef, KTOL) and close(var, ev, KTOL), "krige-latlon:%s:yadrenko-covariance" % fam,
+                  "simple kriging from data at %s, %s (%s, geo_scale %s) differs from the weights built from cov_yadrenko of the "
+                  "spec's great-circle distances: field %s, variance %s" % (pts[i], pts[j], name, sname, maxdiff(f, ef), maxdiff(var, ev)),
+                  dict(rp, cond=[pts[i], pts[j]], geo_scale=sc, model=name, got=f, expected=ef))
+
+
+def check_bin_edges(col):
+    """Inclusivity r_k <= d < r_k+1 where the float haversine value is exact (d = 0, d = pi)."""
+    gs = _gs()
+    pi = math.pi
+    cases = [
+        ("coincident", ([10.0, 10.0], [20.0, 20.0]), [0.0, 1.0], [1]),
+        ("coincident", ([10.0, 10.0], [20.0, 20.0]), [0.5, 1.0], [0]),
+        ("antipodal", ([0.0, 0.0], [0.0, 180.0]), [pi / 2, pi], [0]),
+        ("antipodal", ([0.0, 0.0], [0.0, 180.0]), [pi, 4.0], [1]),
+        ("antipodal", ([0.0, 0.0], [0.0, 180.0]), [0.0, pi, 3.5], [0, 1]),
+        ("antipodal", ([0.0, 0.0], [-90.0, 90.0]), [1.0, pi, 3.5], [0, 1]),
+    ]
+    for name, pos, edges, exp in cases:
+        _b, _g, cnt = gs.vario_estimate(pos, [1.0, 2.0], np.array(edges), latlon=True, return_counts=True)
+        col.check(list(cnt) == exp, "vario_estimate:latlon:%s:bin-edge" % name,
+                  "%s pair %s with bin edges %s (radians): counts %s, documented r_k <= d < r_k+1 gives %s"
+                  % (name, pos, edges, list(cnt), exp), {"kind": "bin-edge", "pos": pos, "edges": edges})
+
+
+def check_ll_srf(col, states, seed):
+    """SRF of a lat-lon model at lattice points = SRF of the 3-D model at the spec's positions."""
+    gs = _gs()
+    by_r = {}
+    for s in states:
+        c = s["cfg"]
+        if not c["temporal"]:
+            by_r.setdefault(c["r"], []).append(s)
+    for i, (r, sts) in enumerate(sorted(by_r.items())):
+        R = 2.0 ** r
+        name, kw = LL_MODELS[i % len(LL_MODELS)]
+        lat = [float(s["cfg"]["lat"]) for s in sts]
+        lon = [float(s["cfg"]["lon"]) for s in sts]
+        pos = np.array([s["out"]["pos4"] for s in sts], dtype=float).T / 4.0
+        m_ll = _mk_model(name, kw, latlon=True, geo_scale=R, len_scale=0.7 * R, var=2.0)
+        m_3d = _mk_model(name, kw, dim=3, len_scale=0.7 * R, var=2.0)
+        f1 = gs.SRF(m_ll, seed=seed + i, mode_no=16)((lat, lon))
+        f2 = gs.SRF(m_3d, seed=seed + i, mode_no=16)(pos)
+        col.check(close(f1, f2, 1e-11), "srf-latlon:lattice:sphere-positions",
+                  "SRF of the lat-lon model (%s, geo_scale %s) at the lattice points differs from the 3-D model at the spec's "
+                  "positions by %s" % (name, R, maxdiff(f1, f2)), {"kind": "ll-srf", "r": r, "model": name})
+
+
+def check_st_set(col, k, S, s, seed):
+    """lat-lon + time model on a set of space-time lattice points."""
+    gs = _gs()
+    o = s["out"]
+    pts = S["pts"]
+    n = len(pts)
+    R, ts = 2.0 ** S["r"], 2.0 ** S["te"]
+    pos = np.array(o["pos4"], dtype=float).T / 4.0
+    d = np.sqrt(np.array(o["d2x16"], dtype=float) / 16.0)
+    name, kw = LL_MODELS[k % len(LL_MODELS)]
+    rp = {"kind": "st", "set": S, "model": name}
+    ll = (np.array([p[0] for p in pts], float), np.array([p[1] for p in pts], float), np.array([p[2] for p in pts], float))
+    m = _mk_model(name, kw, latlon=True, temporal=True, geo_scale=R, len_scale=1.5 * R, var=2.0, anis=[0.7, 1.3, ts],
+                  angles=[0.4, 1.0, 0.3, 0.7, 0.2, 0.9])
+    m4 = _mk_model(name, kw, dim=4, len_scale=1.5 * R, var=2.0)
+    col.check(close(m.anis, [1.0, 1.0, ts], 0.0) and not np.any(m.angles), "model-latlon:temporal:forced-parameters",
+              "lat-lon + time model keeps spatial anisotropy or angles: anis %s angles %s" % (list(m.anis), list(m.angles)), rp)
+    got = m.isometrize(ll)
+    col.check(close(got, pos, TOL * max(1.0, R)), "model-latlon:isometrize:temporal:set",
+              "isometrize of space-time lattice points differs from the spec by %s" % maxdiff(got, pos), rp)
+    f1 = gs.SRF(m, seed=seed + k, mode_no=16)(ll)
+    f2 = gs.SRF(m4, seed=seed + k, mode_no=16)(pos)
+    col.check(close(f1, f2, 1e-11), "srf-latlon:temporal:spacetime-positions",
+              "SRF of the lat-lon + time model differs from the 4-D isotropic model at the spec's positions by %s" % maxdiff(f1, f2), rp)
+    # two data points, hand-assembled simple kriging with the covariance of the spec's exact space-time distances
+    i, j, v1, v2 = 0, 1, 1.5, -0.5
+    kr = gs.krige.Simple(m, cond_pos=[x[:2] for x in ll], cond_val=[v1, v2], mean=0.0)
+    f, var = kr(ll)
+    cv = lambda a, b: float(m.covariance(d[a, b]))  # noqa: E731
+    c0, c12 = float(m.covariance(0.0)), cv(i, j)
+    det = c0 * c0 - c12 * c12
+    ef, ev = [], []
+    for t in range(n):
+        c1t, c2t = cv(i, t), cv(j, t)
+        w1, w2 = (c0 * c1t - c12 * c2t) / det, (c0 * c2t - c12 * c1t) / det
+        ef.append(w1 * v1 + w2 * v2)
+        ev.append(max(c0 - (w1 * c1t + w2 * c2t), 0.0))
+    col.check(close(f, ef, KTOL) and close(var, ev, KTOL), "krige-latlon:temporal:spacetime-distance",
+              "simple kriging with the lat-lon + time model differs from the weights built from the spec's space-time distances "
+              "(chord on the sphere of radius %s, time / %s): field %s, variance %s" % (R, ts, maxdiff(f, ef), maxdiff(var, ev)),
+              dict(rp, got=f, expected=ef))
+
+
+def check_oct_set(col, k, pts, states, seed, tier):
+    """Kriging of lat-lon data is invariant under the 24 rotations of the octahedron and under lon + 360 k;
+    SRF / CondSRF are unchanged under lon + 360 k."""
+    gs = _gs()
+    ncond = 4
+    rr = random.Random(seed * 1000 + k)
+    lat = np.array([p[0] for p in pts], float)
+    lon = np.array([p[1] for p in pts], float)
+    tt = np.array([rr.randrange(-2, 3) for _ in pts], float)
+    vals = [1.0, -2.0, 3.0, 0.5]
+    name, kw = LL_MODELS[k % len(LL_MODELS)]
+    sname, sc = _scales()[k % 4]
+    models = {
+        "spatial": _mk_model(name, kw, latlon=True, geo_scale=sc, len_scale=0.6 * sc, var=2.0, nugget=0.1),
+        "temporal": _mk_model(name, kw, latlon=True, temporal=True, geo_scale=sc, len_scale=0.6 * sc, var=2.0, anis=[1, 1, 2.0 / sc]),
+    }
+
+    def krig(kind, K, la, lo):
+        m = models[kind]
+        pos = (la, lo) if kind == "spatial" else (la, lo, tt)
+        kr = K(m, cond_pos=[x[:ncond] for x in pos], cond_val=vals, **({"mean": 0.3} if K is gs.krige.Simple else {}))
+        return kr(pos), kr
+
+    base = {}
+    for kind in models:
+        for K in (gs.krige.Simple, gs.krige.Ordinary):
+            base[(kind, K)] = krig(kind, K, lat, lon)[0]
+    for s in states:
+        A = np.array(s["out"]["mat"], dtype=float)
+        img = s["out"]["img"]
+        la = np.array([p[0] for p in img], float)
+        lo = np.array([p[1] for p in img], float)
+        for p, q in zip(pts, img):  # oracle self-check (never a violation)
+            if np.max(np.abs(A @ _unit(*p) - _unit(*q))) > 1e-12:
+                raise tlc.MachineryError("spec image %s of %s under %s is not the rotated point" % (q, p, A.tolist()))
+        for (kind, K), (f0, v0) in base.items():
+            (f, v), _kr = krig(kind, K, la, lo)
+            col.check(close(f, f0, KTOL) and close(v, v0, KTOL), "krige-latlon:%s:rotation-invariance" % kind,
+                      "%s kriging (%s, geo_scale %s) changes under the rotation %s of all points: field by %s, variance by %s"
+                      % (K.__name__, name, sname, A.astype(int).tolist(), maxdiff(f, f0), maxdiff(v, v0)),
+                      {"kind": "oct", "points": pts, "images": img, "matrix": A, "model": name, "geo_scale": sc, "krige": K.__name__})
+        col.nontrivial.add(("oct", k, tuple(map(tuple, A.astype(int).tolist()))))
+    # lon -> lon + 360 k, k chosen per point
+    for trial in range(3):
+        sh = np.array([360.0 * rr.choice([-2, -1, 1, 2]) for _ in pts])
+        for (kind, K), (f0, v0) in base.items():
+            (f, v), kr = krig(kind, K, lat, lon + sh)
+            col.check(close(f, f0, KTOL) and close(v, v0, KTOL), "krige-latlon:%s:lon-shift" % kind,
+                      "%s kriging changes under lon + 360k: field by %s, variance by %s" % (K.__name__, maxdiff(f, f0), maxdiff(v, v0)),
+                      {"kind": "oct-shift", "points": pts, "shift": sh, "model": name})
+        for kind, m in models.items():
+            pos0 = (lat, lon) if kind == "spatial" else (lat, lon, tt)
+            pos1 = (lat, lon + sh) if kind == "spatial" else (lat, lon + sh, tt)
+            m0 = _mk_model(name, kw, latlon=True, temporal=(kind == "temporal"), geo_scale=sc, len_scale=0.6 * sc, var=2.0)
+            f0 = gs.SRF(m0, seed=seed + trial, mode_no=16)(pos0)
+            f1 = gs.SRF(m0, seed=seed + trial, mode_no=16)(pos1)
+            col.check(close(f1, f0, KTOL), "srf-latlon:%s:lon-shift" % kind, "SRF changes by %s under lon + 360k" % maxdiff(f1, f0),
+                      {"kind": "srf-shift", "points": pts, "shift": sh, "model": name})
+            if trial == 0:
+                k0 = gs.krige.Ordinary(m0, cond_pos=[x[:ncond] for x in pos0], cond_val=vals)
+                k1 = gs.krige.Ordinary(m0, cond_pos=[x[:ncond] for x in pos1], cond_val=vals)
+                c0 = gs.CondSRF(k0, seed=seed, mode_no=16)([x[ncond:] for x in pos0])
+                c1 = gs.CondSRF(k1, seed=seed, mode_no=16)([x[ncond:] for x in pos1])
+                col.check(close(c1, c0, KTOL), "condsrf-latlon:%s:lon-shift" % kind,
+                          "conditioned field changes by %s under lon + 360k" % maxdiff(c1, c0),
+                          {"kind": "condsrf-shift", "points": pts, "shift": sh, "model": name})
+
+
+def _work_sphere(job):
+    kind = job[0]
+    col = _Collect()
+    if kind == "ll":
+        for s in job[1]:
+            check_ll_state(col, s)
+            col.nontrivial.add(("ll", tlaval.freeze(s["cfg"])))
+    elif kind == "llgen":
+        for i in job[1]:
+            check_ll_general(col, i, job[2])
+            col.nontrivial.add(("llgen", i))
+    elif kind == "gc":
+        _k, k, fam, pts, vals, s, tier = job
+        check_gc_set(col, k, fam, pts, vals, s, tier)
+        col.nontrivial.add(("gc", k))
+    elif kind == "st":
+        _k, k, S, s, seed = job
+        check_st_set(col, k, S, s, seed)
+        col.nontrivial.add(("st", k))
+    elif kind == "oct":
+        _k, k, pts, states, seed, tier = job
+        check_oct_set(col, k, pts, states, seed, tier)
+    elif kind == "misc":
+        check_bin_edges(col)
+        check_ll_srf(col, job[1], job[2])
+        col.nontrivial.add(("misc",))
+    return col
+
+
+def run_c13(rep, tier, seed):
+    thorough = tier == "thorough"
+    rng = random.Random(seed)
+    procs = _procs(tier)
+    rep.assumptions += [
+        "lat-lon inputs are on exact lattices: octahedral (multiples of 90 degrees), integer degrees on the equator / on a meridian circle "
+        "(great-circle distance is an exact integer), integer degrees on the three coordinate great circles (octahedral rotations map them "
+        "onto each other exactly); sphere radius and time ratio are powers of two where positions are compared",
+        "cov_yadrenko(zeta) == covariance(2R sin(zeta/2R)) is checked as a relation between implementation outputs (the argument is mapped "
+        "with math.sin); at 0/60/90/120/180 degrees the chord is exact (sqrt of the spec's rational) and decides alone",
+        "rotation invariance is required of kriging only (a RandMeth realisation is not rotation invariant); SRF/CondSRF are replayed under lon+360k",
+        "quarter-turn angles / dyadic ratios for the spatio-temporal (non lat-lon) models as in C12",
+    ]
+    gcsets = gen_gc_sets(rng, 40 if thorough else 15)
+    octsets = gen_oct_sets(rng, 10 if thorough else 3)
+    stsets = gen_st_sets(rng, 24 if thorough else 8)
+    with tlc.Scratch() as sc:
+        jobs = []
+
+        def add_lin(tag, dims, qsets, exps):
+            mod, cfg = lin_module("MC_" + tag, "tmp", dims, qsets, exps)
+            sc.write("MC_%s.tla" % tag, mod)
+            jobs.append((("tmp", tag), sc, "MC_" + tag, _cfg_inv(cfg, LIN_INVS),
+                         dict(workers=1, timeout=1500, heap="2g", dump=("states", sc.path(tag + ".dump")))))
+
+        def add_sph(tag, mode, **kw):
+            mod, cfg = sphere_module("MC_" + tag, mode, **kw)
+            sc.write("MC_%s.tla" % tag, mod)
+            jobs.append(((mode, tag), sc, "MC_" + tag, cfg,
+                         dict(workers=1, timeout=1500, heap="2g", dump=("states", sc.path(tag + ".dump")))))
+
+        add_lin("t2", [2], FULLQ, {2: _expvecs(2)})
+        for q1 in range(4):
+            add_lin("t3q%d" % q1, [3], [[q1]] + FULLQ[1:], {3: _expvecs(3)})
+        if thorough:
+            es4 = rng.sample(_expvecs(4), 9)
+            for ei, es in enumerate(es4):
+                for q1 in range(4):
+                    add_lin("t4e%dq%d" % (ei, q1), [4], [[q1]] + FULLQ[1:], {4: [es]})
+        else:
+            es4 = ES4_QUICK
+            stq = [[0, rng.choice([1, 2, 3])] for _ in range(3)]
+            for q1 in range(4):
+                add_lin("t4q%d" % q1, [4], [[q1]] + FULLQ[1:3] + stq, {4: es4})
+        add_sph("ll", "ll", lats=(-90, 0, 90), lons=range(-360, 541, 90), times=(-1, 0, 3), radexp=(-1, 0, 1), timeexp=(-1, 0, 1))
+        add_sph("gc", "gc", pointsets=[p for _f, p, _v in gcsets], values=[v for _f, _p, v in gcsets])
+        add_sph("oct", "oct", pointsets=octsets, values=[[0] * len(p) for p in octsets])
+        add_sph("st", "st", stsets=stsets)
+        t0 = time.time()
+        results = tlc.run_many(jobs, parallel=procs)
+        print("TLC: %d jobs in %.1fs" % (len(jobs), time.time() - t0))
+        _design_violations(rep, results, lambda k: ("Geometry.%s[%s]" if k[0] == "tmp" else "GeometrySphere.%s[%s]") % k)
+        t0 = time.time()
+        ll = read_dump(sc.path("ll.dump"))
+        gc = sorted(read_dump(sc.path("gc.dump")), key=lambda s: s["cfg"]["k"])
+        oc = read_dump(sc.path("oct.dump"))
+        stt = sorted(read_dump(sc.path("st.dump")), key=lambda s: s["cfg"]["k"])
+        print("parsed %d + %d + %d + %d sphere configurations in %.1fs" % (len(ll), len(gc), len(oc), len(stt), time.time() - t0))
+        # ---- spatio-temporal (non lat-lon) models: time axis
+        opts = {"model_low": True, "pipe_low": thorough, "model": 1 if thorough else 2, "pipe": 16 if thorough else 6}
+        wjobs = []
+        for (mode, tag), r in sorted(results.items()):
+            if mode == "tmp":
+                nparts = max(1, r.distinct // (40 if thorough and tag.startswith("t3") else 128))
+                wjobs += [("tmp", sc.path(tag + ".dump"), part, nparts, opts) for part in range(nparts)]
+        t0 = time.time()
+        tot = _collect_lin(rep, _run_pool(_work_lin, wjobs, procs))
+    ng = 120 if thorough else 40
+    for col in _run_pool(_work_general, [(list(range(i, ng, procs)), seed, True) for i in range(procs)], procs):
+        _merge(rep, col)
+    rep.traces += tot["states"] + ng
+    print("time axis: replayed %d configurations (%d on CovModel, %d through the pipelines) + %d general in %.1fs"
+          % (tot["states"], tot["model"], tot["pipe"], ng, time.time() - t0))
+    # ---- sphere
+    t0 = time.time()
+    ngen = 300 if thorough else 100
+    sjobs = [("ll", ll[i::procs]) for i in range(procs)]
+    sjobs += [("llgen", list(range(i, ngen, 4)), seed) for i in range(4)]
+    sjobs += [("gc", k, gcsets[k][0], gcsets[k][1], gcsets[k][2], gc[k], tier) for k in range(len(gcsets))]
+    sjobs += [("st", k, stsets[k], stt[k], seed) for k in range(len(stsets))]
+    for k in range(len(octsets)):
+        sts = [s for s in oc if s["cfg"]["k"] == k + 1]
+        for part in range(4):
+            sjobs.append(("oct", k, octsets[k], sts[part::4], seed, tier))
+    sjobs.append(("misc", ll, seed))
+    for col in _run_pool(_work_sphere, sjobs, procs):
+        _merge(rep, col)
+    rep.traces += len(ll) + ngen + len(gcsets) + len(stsets) + len(oc) + 1
+    print("sphere: replayed %d lattice points, %d general points, %d distance sets, %d space-time sets, %d (rotation, set) pairs in %.1fs"
+          % (len(ll), ngen, len(gcsets), len(stsets), len(oc), time.time() - t0))
+    for s in ll[:2]:
+        rep.sample({"latlon_lattice": s["cfg"], "spec_pos_quarters": s["out"]["pos4"], "spec_back": s["out"]["back"]})
+    rep.sample({"distance_family": gcsets[0][0], "points": gcsets[0][1], "spec_histogram_deg_count_sumsq": sorted(map(list, gc[0]["out"]["hist"]))})
+    rep.sample({"octahedral_rotation": oc[0]["out"]["mat"], "points": octsets[oc[0]["cfg"]["k"] - 1], "spec_images": oc[0]["out"]["img"]})
+    rep.sample({"spacetime_set": stsets[0], "spec_d2_sixteenths": stt[0]["out"]["d2x16"]})
+    rep.extra.update({"time_axis_configurations": tot["states"], "time_axis_through_pipelines": tot["pipe"], "lattice_points": len(ll), "distance_sets": len(gcsets),
+                      "rotation_set_pairs": len(oc), "spacetime_sets": len(stsets), "general_points_sets": ngen})
+    return rep.finish(
+        level="model_checking",
+        rule="traces = TLC configurations replayed on the real code: (dim, requested angles, ratios) of spatio-temporal models; lattice "
+             "lat-lon(-time) points x radius x time ratio; point sets with exact great-circle distances (vario_estimate in 4 geo_scales, "
+             "Yadrenko, 2-point kriging); (octahedral rotation, point set) pairs (kriging invariance); space-time lattice sets; "
+             "+ seeded general points / angle vectors.  distinct non-trivial = distinct configurations",
+        exhaustive=False)
+
+
+# ---------------------------------------------------------------------------
 
 
 def run(pid, tier, seed, replay=None):
@@ -652,7 +1249,39 @@ def run(pid, tier, seed, replay=None):
 
 
 def _replay(path):
-    rp = json.load(open(path))
-    print(json.dumps({k: rp[k] for k in ("property", "key", "what")}, indent=1))
-    print(json.dumps(rp["replay"], indent=1)[:4000])
-    return 0
+    """Re-execute one recorded case: TLC recomputes the expected values of that configuration."""
+    rec = json.load(open(path))
+    rp = rec["replay"]
+    print("replay of %s  key=%s\n  %s" % (rec["property"], rec["key"], rec["what"][:600]))
+    kind = rp.get("kind")
+    col = _Collect()
+    if kind in ("functions", "model", "pipeline"):
+        d, temporal = rp["d"], bool(rp.get("temporal"))
+        with tlc.Scratch() as sc:
+            mod, cfg = lin_module("MC_replay", "tmp" if temporal else "lin", [d],
+                                  [[q] for q in rp["qs"]] + [[0]] * (6 - len(rp["qs"])), {d: [rp["es"]]})
+            sc.write("MC_replay.tla", mod)
+            r = tlc.must_pass(tlc.run(sc, "MC_replay", _cfg_inv(cfg, LIN_INVS), workers=1, timeout=600,
+                                      dump=("states", sc.path("r.dump"))), "replay")
+            st = read_lin_dump(sc.path("r.dump"))[0]
+        print("  TLC: %r\n  spec state: %s" % (r, {k: st[k] for k in ("d", "qs", "eqs", "es", "rot", "isoX", "anisoX", "rad2")}))
+        if not temporal:
+            check_functions(col, st)
+        for lexp in LENEXP:
+            check_model(col, st, lexp, temporal=temporal)
+        for idx in range(14):
+            check_pipeline(col, st, idx, temporal=temporal)
+    elif kind == "general":
+        check_general(col, rp["idx"], rp["seed"], temporal=bool(rp.get("temporal")))
+    elif kind == "ll-general":
+        check_ll_general(col, rp["idx"], rp["seed"])
+    elif kind == "bin-edge":
+        check_bin_edges(col)
+    else:
+        print("  recorded inputs (re-run ./check to regenerate the TLC values):")
+        print(json.dumps(rp, indent=1)[:6000])
+        return 0
+    for key, what, _r in col.violations:
+        print("  REPRODUCED key=%s: %s" % (key, what[:400]))
+    print("  %d evaluations, %d violating keys" % (col.evals, len(col.violations)))
+    return 1 if col.violations else 0
